@@ -16,10 +16,14 @@ FAM = {
  "F03-reshape-folded-into-producer": dict(
     what="an operator followed by RESHAPE whose shapes are recomputed after the reshape was bypassed (LUT activations, 2x-upscaling resize steps): the OFM takes the reshaped shape while the IFM registers still describe the original tensor, so elements beyond IFM_WIDTH0/HEIGHT0 are fetched through the unused tile bases",
     ctx=dict(requires_layers=["RESHAPE"], max_layers=8),
-    sigs={"C02": ["out_of_extent"], "C03": ["uninit_read", "foreign_read"], "C04": ["reads_from_divergence", "async_uninit_read", "final_memory_divergence"]}),
+    sigs={"C02": ["out_of_extent"], "C03": ["uninit_read", "foreign_read"], "C04": ["reads_from_divergence", "async_uninit_read", "async_foreign_read", "final_memory_divergence", "inflight_conflict"]}),
  "F04-resize-bilinear-hpc-blockdep": dict(
     what="RESIZE_BILINEAR with half_pixel_centers: the 2x2 depthwise steps read one row/column more than npu_op.ifm.shape (edge replication through the tile bases); calc_blockdep clips its first-job IFM volume to ifm.shape, misses the overlap with the producer's last OFM block and programs BLOCKDEP too large",
     ctx=dict(requires_layers=["RESIZE_BILINEAR"], max_layers=8, kind_any=["DEPTHWISE"]),
+    sigs={"C04": ["async_uninit_read", "async_foreign_read", "reads_from_divergence"]}),
+ "F13-reduce-sum-blockdep": dict(
+    what="calc_blockdep treats REDUCE_SUM as if its IFM depth were traversed in ofm-depth (=1) slices and counts non-existent producer blocks (negative block index) as outstanding jobs: after a single-block producer it programs BLOCKDEP=3 although the second REDUCE_SUM block reads the producer's output (softmax lowering: per-row elementwise ops followed by REDUCE_SUM over all rows)",
+    ctx=dict(requires_any=["SOFTMAX"], max_layers=8, kind_any=["POOL/REDUCE_SUM"]),
     sigs={"C04": ["async_uninit_read", "reads_from_divergence"]}),
  "F06-slice-offset-scaled-by-stride": dict(
     what="a strided (stride>1) or padded pool/conv that reads through a fused slice offset: Box.transform_with_strides_and_skirt adds the read offset before multiplying by the stride (high_level_command_stream.py:66-101); the IFM box handed to the register generator is wrong (even zero-sized), addresses and BLOCKDEP derived from it are wrong",
@@ -41,6 +45,7 @@ FIXED = [
  "fixed: property=C13 c961fbe TRANSPOSE of a tensor without quantisation parameters aborted with AttributeError, register_command_stream_generator.py:generate_ofm_scaling_for_pooling (findings/FX-transpose-noquant.C13.json)",
  "fixed: property=C02 132d556 single (non double-buffered) weight buffer sized for the even depth slices only: the DMA of a larger odd slice overran the published fast-scratch extent; CONV_2D 7x7 dil 2, 256->32 ch, ethos-u65-512 Dedicated_Sram --arena-cache-size 109605 (findings/FX-single-weight-buffer.C02.json)",
  "fixed: property=C03 b9658ce reused 1 KiB lookup table got LUT index offset//1024 instead of offset//256: LOGISTIC ; SOFTMAX ; SOFTMAX on ethos-u55-128 read an SHRAM slot that was never loaded (findings/FX-lut-index-reuse.C03.json)",
+ "fixed: property=C04 e152318 BLOCKDEP one too large after a producer whose last OFM block is needed by the second job of a kernel with asymmetric padding (top != right): AVERAGE_POOL_2D 1x1 ; AVERAGE_POOL_2D 2x2 SAME on 1x51x12x4, ethos-u55-128 (register_command_stream_util.py:508 used padding.right for the row offset; findings/FX-blockdep-padding-right.C04.json)",
  "fixed: property=C14 6b67d8d main(A);main(B) / convert(A);convert(B) in one process died with AssertionError 'Two different addresses cannot be assigned to the same tensor' when A and B share a LUT, and main(A);main(A) produced a different output file (MEAN / TANH / RESIZE_BILINEAR network): TensorAddressMap, lru-cached equivalence ids and CompressedWeightCache survived a compilation",
  "fixed: property=C18 651e96b '--config Arm/vela.ini' (documented example) rejected with 'Section ... not found' unless the working directory contains Arm/vela.ini; a decoy Arm/vela.ini in the working directory was used instead of the bundled one (vela.py passed args.config instead of the resolved paths)",
  "fixed: property=C18 4b72eeb arena_cache_size of the selected memory mode ignored (option default 393216 always 'overrode' the file; out-of-range file values accepted silently)",
